@@ -54,17 +54,31 @@ def validateCtxUpdate (provs : List Addr) (cap : Option Nat) (timeout : Int) (fr
   else none
 
 /-! ### creating a context (`CreateRequestContext`) -/
+/-- the checks made only for module-owned contexts: callbacks registered, `ValidateRequest`, threshold -/
+def createPre (s : State) (mod : ModName) (svc : SvcName) (provs : List Addr) (cap : Option Nat) (timeout : Int)
+    (rep : Bool) (freq : Nat) (total : Int) (thr : Nat) : Option Err :=
+  if mod ≠ "" then
+    if mod ∉ s.cfg.modules then some .callbackNotRegistered
+    else match validateRequest svc cap provs timeout rep freq total with
+      | some e => some e
+      | none => if thr < 1 ∨ thr > provs.length then some .invalidResponseThreshold else none
+  else none
+
+/-- the context record as first stored -/
+def newCtxRec (mod : ModName) (svc : SvcName) (provs : List Addr) (cons : Addr) (capv : Nat) (timeout : Int)
+    (super rep : Bool) (freq : Nat) (total : Int) (running : Bool) (thr : Nat) : Ctx := {
+  svc := svc, provs := provs, cons := cons, cap := capv, timeout := timeout,
+  super := super, rep := rep,
+  freq := if rep then (if freq = 0 then timeout.toNat else freq) else 0,
+  total := if rep then total else 0,
+  batch := 0, reqN := 0, respN := 0,
+  bthr := thr, bstate := .completed, state := if running then .running else .paused,
+  thr := thr, mod := mod }
+
 def createCtx (s : State) (id : CtxId) (mod : ModName) (svc : SvcName) (provs : List Addr) (cons : Addr)
     (cap : Option Nat) (timeout : Int) (super rep : Bool) (freq : Nat) (total : Int)
     (inputOk : Bool) (running : Bool) (thr : Nat) : Out :=
-  let pre : Option Err :=
-    if mod ≠ "" then
-      if mod ∉ s.cfg.modules then some .callbackNotRegistered
-      else match validateRequest svc cap provs timeout rep freq total with
-        | some e => some e
-        | none => if thr < 1 ∨ thr > provs.length then some .invalidResponseThreshold else none
-    else none
-  match pre with
+  match createPre s mod svc provs cap timeout rep freq total thr with
   | some e => fail s e
   | none =>
     if (Map.get s.defs svc).isNone then fail s .unknownDefinition
@@ -74,16 +88,9 @@ def createCtx (s : State) (id : CtxId) (mod : ModName) (svc : SvcName) (provs : 
     | some capv =>
       if timeout > s.params.maxTimeout then fail s .invalidTimeout
       else
-        let freq' := if rep then (if freq = 0 then timeout.toNat else freq) else 0
-        let total' := if rep then total else 0
-        let x : Ctx := {
-          svc := svc, provs := provs, cons := cons, cap := capv, timeout := timeout,
-          super := super, rep := rep, freq := freq', total := total', batch := 0, reqN := 0, respN := 0,
-          bthr := thr, bstate := .completed, state := if running then .running else .paused,
-          thr := thr, mod := mod }
+        let x := newCtxRec mod svc provs cons capv timeout super rep freq total running thr
         let s1 := { setCtx s id x with usedIds := id :: s.usedIds }
-        let s2 := if running then addNewQ s1 id s.height else s1
-        (s2, .ok, [])
+        (if running then addNewQ s1 id s.height else s1, .ok, [])
 
 /-! ### slash (`Keeper.Slash`) -/
 def storedPricing (s : State) (svc : SvcName) (prov : Addr) : Pricing :=
@@ -247,6 +254,31 @@ def killK (s : State) (c : CtxId) (cons : Addr) : Out :=
       if !x.rep then fail s .requestContextNonRepeated
       else (setCtx s c { x with state := .completed }, .ok, [])
 
+/-- the module-owned part of `UpdateRequestContext`: re-validation and the response threshold -/
+def updThr (x : Ctx) (provs : List Addr) (thr : Nat) (cap : Option Nat) (timeout : Int) (freq : Nat) (total : Int) :
+    Except Err Ctx :=
+  if x.mod ≠ "" then
+    match validateCtxUpdate provs cap timeout freq total with
+    | some e => .error e
+    | none =>
+      let thr' := if thr = 0 then x.thr else thr
+      let provs' := if provs.isEmpty then x.provs else provs
+      if thr' > provs'.length then .error .invalidResponseThreshold
+      else .ok (if thr' > 0 then { x with thr := thr' } else x)
+  else .ok x
+
+/-- the field updates of `UpdateRequestContext` once every check has passed -/
+def updFields (x1 : Ctx) (provs : List Addr) (cap : Option Nat) (timeout' : Int) (freq' : Nat) (total : Int) : Ctx :=
+  { x1 with
+    cap := match cap with | some n => n | none => x1.cap
+    provs := if provs.isEmpty then x1.provs else provs
+    timeout := if timeout' > 0 then timeout' else x1.timeout
+    freq := if freq' > 0 then freq' else x1.freq
+    total := if total ≠ 0 then total else x1.total }
+
+def effTimeout (x : Ctx) (timeout : Int) : Int := if timeout = 0 then x.timeout else timeout
+def effFreq (x : Ctx) (freq : Nat) : Nat := if freq = 0 then x.freq else freq
+
 def updateK (s : State) (c : CtxId) (cons : Addr) (provs : List Addr) (thr : Nat) (cap : Option Nat)
     (timeout : Int) (freq : Nat) (total : Int) : Out :=
   match Map.get s.ctxs c with
@@ -257,32 +289,15 @@ def updateK (s : State) (c : CtxId) (cons : Addr) (provs : List Addr) (thr : Nat
     | none =>
       if x.state = .completed then fail s .requestContextCompleted
       else
-        let modPart : Except Err Ctx :=
-          if x.mod ≠ "" then
-            match validateCtxUpdate provs cap timeout freq total with
-            | some e => .error e
-            | none =>
-              let thr' := if thr = 0 then x.thr else thr
-              let provs' := if provs.isEmpty then x.provs else provs
-              if thr' > provs'.length then .error .invalidResponseThreshold
-              else .ok (if thr' > 0 then { x with thr := thr' } else x)
-          else .ok x
-        match modPart with
+        match updThr x provs thr cap timeout freq total with
         | .error e => fail s e
         | .ok x1 =>
-          let x2 := match cap with | some n => { x1 with cap := n } | none => x1
           if timeout > s.params.maxTimeout then fail s .invalidTimeout
           else
-            let timeout' := if timeout = 0 then x.timeout else timeout
-            let freq' := if freq = 0 then x.freq else freq
-            if timeout' < 0 ∨ (freq' : Int) < timeout' then fail s .invalidRepeatedFreq   -- `freq < uint64(timeout)`
+            if effTimeout x timeout < 0 ∨ (effFreq x freq : Int) < effTimeout x timeout then
+              fail s .invalidRepeatedFreq   -- `freq < uint64(timeout)`
             else if total ≥ 1 ∧ total < (x.batch : Int) then fail s .invalidRepeatedTotal
-            else
-              let x3 := if provs.isEmpty then x2 else { x2 with provs := provs }
-              let x4 := if timeout' > 0 then { x3 with timeout := timeout' } else x3
-              let x5 := if freq' > 0 then { x4 with freq := freq' } else x4
-              let x6 := if total ≠ 0 then { x5 with total := total } else x5
-              (setCtx s c x6, .ok, [])
+            else (setCtx s c (updFields x1 provs cap (effTimeout x timeout) (effFreq x freq) total), .ok, [])
 
 def updatectxVB (cons : Addr) (provs : List Addr) (cap : Option Nat) (timeout : Int) (freq : Nat) (total : Int) : Bool :=
   cons ≠ "" && (validateCtxUpdate provs cap timeout freq total).isNone
